@@ -212,6 +212,7 @@ func NewGCPMultiEndpoint(meOpts *GCPMultiEndpointOptions, opts ...grpc.DialOptio
 		}
 	}
 	if err := gme.UpdateMultiEndpoints(meOpts); err != nil {
+		gme.Close()
 		return nil, err
 	}
 	return gme, nil
@@ -302,6 +303,12 @@ func (gme *GCPMultiEndpoint) UpdateMultiEndpoints(meOpts *GCPMultiEndpointOption
 		return fmt.Errorf("default MultiEndpoint %q missing options", meOpts.Default)
 	}
 
+	for name, meo := range meOpts.MultiEndpoints {
+		if meo == nil || len(meo.Endpoints) == 0 {
+			return fmt.Errorf("MultiEndpoint %q: endpoints list cannot be empty", name)
+		}
+	}
+
 	validPools := make(map[string]bool)
 	for _, meo := range meOpts.MultiEndpoints {
 		for _, e := range meo.Endpoints {
@@ -310,13 +317,21 @@ func (gme *GCPMultiEndpoint) UpdateMultiEndpoints(meOpts *GCPMultiEndpointOption
 	}
 
 	// Add missing pools.
+	var newPools []string
 	for e := range validPools {
 		if _, ok := gme.pools[e]; !ok {
 			// This creates a ClientConn with the gRPC-GCP balancer managing connection pool.
 			conn, err := gme.dialFunc(context.Background(), e, gme.opts...)
 			if err != nil {
+				// Leave everything as it was before the call.
+				for _, ne := range newPools {
+					gme.pools[ne].stopMonitoring()
+					gme.pools[ne].conn.Close()
+					delete(gme.pools, ne)
+				}
 				return err
 			}
+			newPools = append(newPools, e)
 			if gme.log.V(FINE) {
 				gme.log.Infof("created new channel pool for %q endpoint.", e)
 			}
